@@ -237,6 +237,33 @@ fn sort_by_%(fn)s(v: &mut Vec<%(ty)s>)
 SITE_RE = re.compile(r"(self|state)\.(variables|functions)\.insert\(\s*([^,]+?),\s*(Variable|Function) \{\s*order: ([^,]+),")
 
 
+_INS = {}
+
+
+def inserters(comp):
+    """names of the functions of compile.rs that can add an entry to the variable / function tables: their text contains an insert on one of the tables, or
+    calls (as self.NAME(..)) a function that can (fixpoint)"""
+    if id(comp) in _INS:
+        return _INS[id(comp)]
+    spans = {}
+    for m in re.finditer(r"\bfn\s+(\w+)\s*[<(]", comp.masked):
+        try:
+            s0, ob, cb = comp.find_fn_span(m.group(1))
+        except Undecided:
+            continue
+        spans[m.group(1)] = comp.masked[ob:cb]
+    ins = set(n for n, t in spans.items() if re.search(r"\.(variables|functions)\.insert\(", t))
+    changed = True
+    while changed:
+        changed = False
+        for n, t in spans.items():
+            if n not in ins and any(c in ins for c in re.findall(r"\bself\.(\w+)\(", t)):
+                ins.add(n)
+                changed = True
+    _INS[id(comp)] = ins
+    return ins
+
+
 def build(repo):
     u = Unit(NAME, TOOL, PROPS,
              ["src/compile.rs: CompilerState::sorted_variables", "src/compile.rs: CompilerState::sorted_functions", "src/compile.rs: CompilerState::variable_order",
@@ -312,6 +339,24 @@ def build(repo):
         for m in re.finditer(pat, comp.masked):
             expr = how or text[m.start(1):m.end(1)].strip()
             sites.append((line_of(text, m.start()), "self", "variables", key, "Variable", expr, "via local"))
+    # a rank taken into a local EARLIER than right before the insertion: the rank is the table size at that moment, so nothing may be inserted in between.
+    # Decided on the text between the two statements (frame by scan): a call of a method of self other than the rank helper, or an insert, can add an entry.
+    early = []
+    seen = set(x[0] for x in sites)
+    for m in re.finditer(r"self\.variables\.insert\(\s*name,\s*Variable \{\s*order,", comp.masked):
+        prev = comp.masked.rfind("let order = self.variable_order(&name);", 0, m.start())
+        if prev >= 0 and not comp.masked[prev + len("let order = self.variable_order(&name);"):m.start()].strip():
+            continue        # the shape handled above
+        cands = [x for x in re.finditer(r"\border\s*=\s*self\.variable_order\(&name\);", comp.masked[:m.start()])]
+        if not cands:
+            continue
+        a = cands[-1]
+        between = comp.masked[a.end():m.start()]
+        called = set(re.findall(r"\bself\.(\w+)\(", between))
+        adds = sorted(x for x in called if x in inserters(comp)) + (["insert"] if re.search(r"\.(variables|functions)\.insert\(", between) else [])
+        ln = line_of(text, m.start())
+        early.append((ln, line_of(text, a.start()), adds))
+        sites.append((ln, "self", "variables", "name", "Variable", "self.variable_order(&name)", "via local, taken at line %d" % line_of(text, a.start())))
     sites.sort()
     if len(sites) < 8:
         raise Undecided("only %d insertion sites of the variable/function tables found (expected >= 8)" % len(sites))
@@ -380,6 +425,12 @@ def build(repo):
         self.%(field)s.insert(__key, %(ty)s { order: __rank, rest: 0 });
     }
 """ % {"idx": idx, "ln": ln, "how": how, "key": key, "expr": expr, "params": "".join(", " + p for p in params), "field": field, "e": e, "keyexpr": keyexpr, "ty": ty})
+    for ln, ln0, adds in early:
+        site_fns.append("""
+    // insertion at src/compile.rs:%d with a rank taken at line %d: between the two, %s
+    proof fn rank_taken_at_insertion_%d() { assert(%s); //@ C05:rank-taken-when-the-entry-is-inserted
+    }
+""" % (ln, ln0, ("calls that can add entries: " + ", ".join(adds)) if adds else "nothing is inserted", ln, "false" if adds else "true"))
     # literal drains: the statements between `let res = self.<..>_ex(pairs)?;` and the drain loop's header, and the header
     drains = []
     for k, fname in enumerate(("parse_expr", "parse_expr_init_value"), 1):
